@@ -129,6 +129,8 @@ type scopeFrame struct {
 	tainted  map[types.Object]bool   // params that carry binding forms
 	envClass map[types.Object]string // params that carry an env/scope, already classified by the caller
 	seed     func(e ast.Expr) bool
+	root     types.Object // the parameter whose .Cells[rootIdx] is the binding list (forwarded whole to a helper)
+	rootIdx  int
 }
 
 func (sd *scopeSide) helperOf(info *types.Info, ce *ast.CallExpr, from FuncUnit) (FuncUnit, bool) {
@@ -286,6 +288,7 @@ func (sd *scopeSide) walk(fr scopeFrame, out *scopeClass, ord *ordinal, depth in
 			ps := paramObjs(h)
 			sub := scopeFrame{u: h, tainted: map[types.Object]bool{}, envClass: map[types.Object]string{}}
 			anyT := false
+			var skips []func(ast.Node) bool
 			for i, a := range ce.Args {
 				if i >= len(ps) {
 					break
@@ -294,9 +297,35 @@ func (sd *scopeSide) walk(fr scopeFrame, out *scopeClass, ord *ordinal, depth in
 					sub.envClass[ps[i]] = sd.classify(fr, a, 0)
 					continue
 				}
+				// the whole argument list / node forwarded: the helper takes it apart itself
+				if fr.root != nil && identObj(info, a) == fr.root {
+					hinfo := h.Pkg.TypesInfo
+					rp, ri := ps[i], fr.rootIdx
+					sub.root, sub.rootIdx = rp, ri
+					sub.seed = func(e ast.Expr) bool { return isCellsIndex(e, rp, hinfo, ri) }
+					anyT = true
+					continue
+				}
+				// a constant flag selects a branch of the helper
+				if tv, ok := info.Types[a]; ok && tv.Value != nil {
+					if b, ok := tv.Type.Underlying().(*types.Basic); ok && (b.Kind() == types.Bool || b.Kind() == types.UntypedBool) {
+						skips = append(skips, flagPruner(h.Pkg.TypesInfo, h.Decl.Body, ps[i], tv.Value.String() == "true"))
+						continue
+					}
+				}
 				if mentionsT(a) {
 					sub.tainted[ps[i]] = true
 					anyT = true
+				}
+			}
+			if len(skips) > 0 {
+				sub.skip = func(n ast.Node) bool {
+					for _, sk := range skips {
+						if sk(n) {
+							return true
+						}
+					}
+					return false
 				}
 			}
 			if anyT && len(sub.envClass) > 0 {
@@ -386,7 +415,7 @@ func (c *Ctx) evaluatorValueScope(form string) (scopeClass, FuncUnit, string) {
 		return out, u, "operator implementation does not have (env, args) parameters"
 	}
 	envP, argsP := ps[0], ps[1]
-	fr := scopeFrame{u: u, envClass: map[types.Object]string{envP: "outer"},
+	fr := scopeFrame{u: u, envClass: map[types.Object]string{envP: "outer"}, root: argsP, rootIdx: 0,
 		seed: func(e ast.Expr) bool { return isCellsIndex(e, argsP, info, 0) }}
 	c.evaluatorSide().walk(fr, &out, &ordinal{}, 0)
 	return out, u, ""
@@ -495,7 +524,7 @@ func (c *Ctx) analyzerValueScope(form string) (scopeClass, FuncUnit, string) {
 		}
 		skip = flagPruner(info, fd.Body, flagP, *flagVal)
 	}
-	fr := scopeFrame{u: u, skip: skip, envClass: map[types.Object]string{scopeP: "outer"},
+	fr := scopeFrame{u: u, skip: skip, envClass: map[types.Object]string{scopeP: "outer"}, root: nodeP, rootIdx: 1,
 		seed: func(e ast.Expr) bool { return isCellsIndex(e, nodeP, info, 1) }}
 	c.analyzerSide(dfn).walk(fr, &out, &ordinal{}, 0)
 	return out, u, ""
